@@ -56,7 +56,9 @@ func (c *{{$correctableOut}}) Get() (*{{$customOut}}, int, error) {
 	if err != nil {
 		return nil, level, err
 	}
-	return resp.(*{{$customOut}}), level, err
+	// resp is nil until the first reply has been processed.
+	r, _ := resp.(*{{$customOut}})
+	return r, level, err
 }
 {{- end -}}
 `
